@@ -122,6 +122,15 @@ impl Fixtures {
             }
             maps.push(Doc { bytes: Arc::new(text.into_bytes()), label: format!("inline:nested-index-depth-{depth}"), kind: DocKind::Inline });
         }
+        // the same with a minimal innermost map, at the depths around serde_json's recursion
+        // limit (each level adds three JSON nesting levels)
+        for depth in [40usize, 41, 42, 43] {
+            let mut text = String::from("{\"mappings\":\"\"}");
+            for _ in 0..depth {
+                text = format!("{{\"version\":3,\"sections\":[{{\"offset\":{{\"line\":0,\"column\":0}},\"map\":{}}}]}}", text);
+            }
+            maps.push(Doc { bytes: Arc::new(text.into_bytes()), label: format!("inline:nested-index-minimal-depth-{depth}"), kind: DocKind::Inline });
+        }
         if maps.len() < 10 {
             simcore::harness_error("fixture maps under /repo/tests/fixtures not found");
         }
@@ -165,7 +174,13 @@ fn jstr(s: &str) -> String {
     serde_json::to_string(s).unwrap()
 }
 
-const WORDS: [&str; 12] = ["a.js", "b/c.js", "/abs/d.js", "http://h/e.js", "", "ünï.js", "x\"y.js", "foo", "bar", "function", "€", "👌"];
+// names with multi-byte characters at every small byte offset (code that slices names at a
+// fixed offset must land inside a character for some of them), schemes in mixed case, Windows paths
+const WORDS: [&str; 30] = [
+    "a.js", "b/c.js", "/abs/d.js", "http://h/e.js", "", "ünï.js", "x\"y.js", "foo", "bar", "function", "€", "👌",
+    "aé.js", "abé.js", "abcé.js", "src/é.js", "src/a€.js", "lib/ab👌.js", "日本語.js", "abcd👌e", "HTTP://H/x.js", "Https://h/é",
+    "C:\\dir\\f.js", "a/b/../c.js", "/", "//x", "http:", "https:/é", "abcdef€", "ab/cd/ef/gh.js",
+];
 
 fn word(rng: &mut Rng) -> &'static str {
     *rng.pick(&WORDS[..])
@@ -437,10 +452,10 @@ impl Emit<'_> {
             keys.push(("file".into(), jstr(word(rng))));
         }
         if rng.chance(1, 4) {
-            keys.push(("x_facebook_offsets".into(), "[0,null,12,4294967295]".into()));
+            keys.push(("x_facebook_offsets".into(), (*rng.pick(&["[0,null,12,4294967295]", "[]", "[null]", "[null,null,null]", "[0]", "[null,5]", "[7,null]", "null"])).into()));
         }
         if rng.chance(1, 4) {
-            keys.push(("x_metro_module_paths".into(), "[\"a.js\",\"b.js\"]".into()));
+            keys.push(("x_metro_module_paths".into(), (*rng.pick(&["[\"a.js\",\"b.js\"]", "[]", "[\"\"]", "[\"é\"]", "null"])).into()));
         }
         if rng.chance(1, 10) {
             keys.push(("mappings".into(), jstr("AAAA")));
